@@ -1,14 +1,14 @@
 SPECIFICATION Spec
 CONSTANTS
-  NC = 3
+  NC = 4
   NU = 2
-  MaxConn = 3
+  MaxConn = 4
   MaxRefuse = 2
-  MaxFeed = 1
-  MaxEof = 1
+  MaxFeed = 2
+  MaxEof = 2
   SlowSet = {}
   CfgWrite = FALSE
-  NCl = 1
+  NCl = 2
 INVARIANT MonitorQuiet
 INVARIANT OneReceivePath
 INVARIANT LockDiscipline
